@@ -730,8 +730,10 @@ def C05(run):
     # crash=True: a count that dies where the model completes elects nobody, so the coalition is not represented
     count_property(run, dict(rules=ALL, keys=['C05'], crash=True, proj=proj_C05, quick=6000, thorough=150000, equal_ranks=0.0,
                              prescribed_quota=True, families=['coalitions', 'coalitions', 'majority', 'plain', 'chains', 'on_quota']))
-    run.coverage['explanation'] = ('theorem: the one-seat majority case (lean/Props/C05.lean); the general k-quota claim is explored only: '
-                                   'the compiled Lean predicate okC05 enumerates every candidate subset on the record of every generated election')
+    run.coverage['explanation'] = ('theorems: the one-seat majority clause for all eleven rule names (Props/C05Run, C05Meek, C05Prf, C05Qpq) and the k-quota '
+                                   'coalition claim for scotland, wigm and wigm-prf with single exclusions (Props/C05Coalition); for batch exclusions, cfer, mpls, '
+                                   'the Meek family and QPQ the k-quota claim is explored only: the compiled Lean predicate okC05 enumerates every candidate '
+                                   'subset on the record of every generated election')
 
 
 def retie_line(item):
